@@ -70,6 +70,8 @@
 (*   acct    [name -> [kind, start, end, lockup, vesting, ov, bal]]        *)
 (*           kind in {"vesting","plain","none"}; bal = native balance      *)
 (*   minLiq, enabled   module parameters                                   *)
+(* Histories with many tokens in circulation at once (identifiers of       *)
+(* different lengths, drained in any order): module LiquidVestingMany.      *)
 (* Block time is an argument of every message (args.t, seconds from the    *)
 (* scripted genesis time).  Amounts are decimal strings (BigNum); a period *)
 (* is [len |-> n, amt |-> [aISLM |-> "x"]] as in module Schedule.          *)
